@@ -52,8 +52,8 @@ def WriteLoop.run (w : WriteLoop) (evs : List WEvent) : WriteLoop := evs.foldl W
 
 /-! ### websocket read adapter -/
 
-/-- what `WebSocket::read` yields: a data message (binary or text payload), a control message
-    (ping, pong, close: `MessageCursor::new` gives `None`), a failure that is reported once (a malformed frame),
+/-- what `WebSocket::read` yields: a data message (binary payload), a message that carries no MQTT bytes
+    (text, ping, pong, close: `MessageCursor::new` gives `None`), a failure that is reported once (a malformed frame),
     or the end of the stream (a failure that every later `WebSocket::read` reports again) -/
 inductive WsMsg where
   | data (payload : Bytes)
@@ -114,6 +114,7 @@ def WsReader.read (r : WsReader) (arrived : List WsMsg) (bufLen : Nat) : WsReade
 inductive SockStep where
   | accept (n : Nat)
   | block
+  | interrupt
   | fail
   deriving Repr, BEq, DecidableEq
 
@@ -161,6 +162,8 @@ def wsFlushLoop : Nat → WsWriter → List SockStep → WsWriter × List SockSt
         let (q, d) := takeBytes w.queued k
         wsFlushLoop fuel { queued := q, delivered := w.delivered ++ d } rest
       | .block :: rest => (w, rest, .wouldBlock)
+      -- an interrupted call: tungstenite gives up for now, the frame stays queued (the caller retries, as for would-block)
+      | .interrupt :: rest => (w, rest, .wouldBlock)
       | .fail :: rest => (w, rest, .err)
 
 /-- `WebsocketStreamWrapper::write`: the message is queued, then flushed as far as the socket allows.  Once queued the
